@@ -42,6 +42,15 @@ def build(world, cls: str, hold_s: int | None = None) -> bytes:
         return bgpmsg.update(attrs=bgpmsg.base_attrs(aspath=(world.peer_as,)), nlri=bgpmsg.prefix('198.51.100.0/24', 1))
     if cls == 'UPD-eor':
         return bgpmsg.eor()
+    if cls in ('UPD-4097', 'HDR-length-4097'):
+        # a well-formed UPDATE of 4097 bytes: acceptable iff both sides announced extended messages (RFC 8654)
+        at = bgpmsg.base_attrs(aspath=(world.peer_as,))
+        nlri = bgpmsg.prefix('198.51.100.0/24', 1)
+        pad = 4097 - 19 - 4 - len(at) - len(nlri) - 4
+        at += bgpmsg.attr(0xC0, 250, b'\x00' * pad)
+        raw = bgpmsg.update(attrs=at, nlri=nlri)
+        assert len(raw) == 4097, len(raw)
+        return raw
     if cls == 'UPD-reset':
         # Total Path Attribute Length runs past the end of the message: RFC 4271 6.3 / RFC 7606 3(b) -> 3/1
         body = struct.pack('!H', 0) + struct.pack('!H', 200) + bgpmsg.attr(0x40, 1, b'\x00')
@@ -69,7 +78,7 @@ async def direct(world, steps) -> None:
         do = st['do']
         n = len(world.rx_msgs)
         if do == 'est':
-            if not await world.establish(hold=st.get('hold')):
+            if not await world.establish(hold=st.get('hold'), **st.get('caps', {})):
                 world.log('harness', what='establish-failed')
                 return
         elif do == 'wait':
